@@ -90,7 +90,9 @@ func (line *Line) ContainsLine(other *Line) bool {
 	// neither side of a shared vertex makes the walk step back and forth
 	// forever.
 	var dir int
+	var vs verifSteps
 	for i := 1; i < otherNumSegments; i++ {
+		vs.step(lineNumSegments, otherNumSegments)
 		lineSeg := line.SegmentAt(segIdx)
 		otherSeg := other.SegmentAt(i)
 		if lineSeg.ContainsSegment(otherSeg) {
